@@ -25,6 +25,18 @@ LINE = ('seq', [
 # same forward loop. Together: tag (, tag)* exactly.
 
 VALUES = ('star', ('seq', [('opt', ('lit', ':')), ('val', 'item')]))
+VALUES_STRICT = ('opt', ('seq', [('val', 'item'), ('star', ('seq', [('lit', ':'), ('val', 'item')]))]))
+
+
+def line_grammar(strict):
+    tag = ('seq', [('opt', ('seq', [('val', 'tagkey'), ('lit', ':')])), ('val', 'tagval')])
+    if strict:
+        tags = ('seq', [('lit', '|#'), tag, ('star', ('seq', [('lit', ','), tag]))])
+    else:
+        tags = ('seq', [('lit', '|#'), ('star', ('seq', [('opt', ('lit', ',')), tag]))])
+    return ('seq', [('val', 'prefix'), ('val', 'key'), ('lit', ':'), ('val', 'val'), ('lit', '|'), ('val', 'type'),
+                    ('opt', ('seq', [('lit', '|@'), ('val', 'rate')])), ('opt', tags),
+                    ('opt', ('seq', [('lit', '|c:'), ('val', 'cid')])), ('opt', ('seq', [('lit', '|T'), ('val', 'ts')]))])
 
 
 def strip_mut(t):
@@ -325,6 +337,79 @@ def _idx_gt0(dt, truth, idx_term):
     return False
 
 
+def _switch_local(body, sbi):
+    """(local, negated) tested by the switch in block sbi: `switchInt(copy _f)` or `_t = Not(copy _f); switchInt(move _t)`"""
+    t = body.blocks[sbi]['term']
+    d = t['discr']
+    if d.get('k') not in ('copy', 'move') or d['place']['p']:
+        return None, False
+    l = d['place']['l']
+    for s in reversed(body.blocks[sbi]['stmts']):
+        if s['k'] == 'assign' and s['place']['l'] == l and not s['place']['p']:
+            rv = s['rv']
+            if rv['k'] == 'un' and rv['op'] == 'Not' and rv['a'].get('k') in ('copy', 'move') and not rv['a']['place']['p']:
+                return rv['a']['place']['l'], True
+            if rv['k'] == 'use' and rv['op'].get('k') in ('copy', 'move') and not rv['op']['place']['p']:
+                return rv['op']['place']['l'], False
+            return None, False
+    return l, False
+
+
+def first_flag_guard(body, T, sep_bb, next_bb):
+    """The separator in sep_bb is guarded by a boolean local that is `init` before the loop and set to `!init` in every
+    iteration (after which it never changes back): separator iff not the first iteration."""
+    from .. import cfg as C_
+    loop = set()
+    for e in C_.back_edges(body):
+        lp = C_.natural_loop(body, e)
+        if next_bb in lp:
+            loop |= lp
+    if not loop or sep_bb not in loop:
+        return False
+    for dt, labels, sbi in guards_of(T, sep_bb) or []:
+        if sbi not in loop:
+            continue
+        truth = None
+        for lab in labels:
+            if lab[0] == 'bool':
+                truth = lab[1]
+        if truth is None:
+            continue
+        l, neg = _switch_local(body, sbi)
+        if l is None:
+            continue
+        want_on_sep = truth != neg          # value the flag has when the separator is written
+        defs = []
+        for bi, blk in enumerate(body.blocks):
+            if blk['cleanup']:
+                continue
+            for si, s in enumerate(blk['stmts']):
+                if s['k'] == 'assign' and s['place']['l'] == l and not s['place']['p']:
+                    rv = s['rv']
+                    v = rv['op'].get('val') if rv['k'] == 'use' and rv['op'].get('k') == 'const' else None
+                    defs.append((bi, si, v))
+            tt = blk['term']
+            if tt['k'] == 'call' and tt['dest']['l'] == l:
+                defs.append((bi, None, None))
+        if not defs or any(v not in (True, False) for _, _, v in defs):
+            continue
+        outside = [d for d in defs if d[0] not in loop]
+        inside = [d for d in defs if d[0] in loop]
+        if not outside or not inside:
+            continue
+        if any(v != (not want_on_sep) for _, _, v in outside) or any(v != want_on_sep for _, _, v in inside):
+            continue
+        # on the edge taken in the first iteration (flag == init) the flag is flipped before the next `next()`
+        dblocks = set(d[0] for d in inside)
+        sf = T.switch_facts(sbi)
+        first_edges = [s for s, labs in sf[1].items() if ('bool', (not want_on_sep) != neg) in labs]
+        if first_edges and all(s in dblocks or C_.must_pass(body, s, {next_bb} | set(C_.exits(body, False)), dblocks) for s in first_edges):
+            # no flip before the test within an iteration
+            if all(d != sbi and sbi not in reach(body, body.succs(d, False), stop=lambda q: q == next_bb) for d in dblocks):
+                return True
+    return False
+
+
 FORWARD_ITER = ('core::slice::iter', '<core::slice::iter::Iter as core::iter::traits::iterator::Iterator>::enumerate',
                 '<core::iter::adapters::enumerate::Enumerate as core::iter::traits::collect::IntoIterator>::into_iter',
                 '<core::slice::iter::Iter as core::iter::traits::collect::IntoIterator>::into_iter',
@@ -432,9 +517,18 @@ def rule_format(fm, rep, rid='R1', scope='all'):
         guards_needed.append((bb, role, extra))
         return [('v', role)]
 
+    strict_ok = False
     if scope == 'all':
-        nfa = compile_re(LINE)
-        ok = run_grammar(body, ev.events, classify, nfa, rep, rid, 'format', fm.format.where())
+        from ..report import Report
+        scratch = Report('scratch')
+        saved = list(guards_needed)
+        strict_ok = run_grammar(body, ev.events, classify, compile_re(line_grammar(True)), scratch, rid, 'format', fm.format.where())
+        if strict_ok:
+            ok = True
+            rep.good(rid, 'format/grammar', fm.format.where(), 'every path emits a sentence of the strict grammar tag(,tag)* (%d output sites)' % len(ev.events))
+        else:
+            del guards_needed[:]
+            ok = run_grammar(body, ev.events, classify, compile_re(line_grammar(False)), rep, rid, 'format', fm.format.where())
     else:
         # narrower claim (C02: how values are rendered; C04: tags + container id): classify every output site, but do
         # not constrain the order of sections
@@ -503,6 +597,9 @@ def rule_format(fm, rep, rid='R1', scope='all'):
     if not tag_open:
         rep.bad('R2', 'tags/present', fm.format.where(), 'the formatter never writes the tags section')
     seps = [bb for bb, atoms in ev.events.items() if atoms == [('lit', ',')]]
+    if strict_ok:
+        seps = []
+        rep.good('R2', 'tags/separator-iff-not-first', fm.format.where(), 'structure of the loop itself yields tag(,tag)* (strict grammar accepted)')
     for bb in seps:
         gs = guards_of(T, bb) or []
         okg = False
@@ -514,8 +611,13 @@ def rule_format(fm, rep, rid='R1', scope='all'):
                 for lab in labels:
                     if lab[0] == 'bool' and _idx_gt0(dt, lab[1], idx):
                         okg = True
-        rep.ob('R2', 'tags/separator-iff-not-first', okg, body.where(bb), '"," is written exactly before every tag but the first' if okg else 'the tag separator is not guarded by (index > 0)')
-    if not seps:
+        if not okg:
+            for nx in nexts:
+                nb_ = [bi for bi, t_ in body.calls() if not body.blocks[bi]['cleanup'] and norm(T.call_term(bi)) == nx]
+                if nb_ and first_flag_guard(body, T, bb, nb_[0]):
+                    okg = True
+        rep.ob('R2', 'tags/separator-iff-not-first', okg, body.where(bb), '"," is written exactly before every tag but the first' if okg else 'the tag separator is not guarded by (index > 0) or a first-iteration flag')
+    if not seps and not strict_ok:
         rep.bad('R2', 'tags/separator', fm.format.where(), 'no "," separator site found')
     for nx, enum in nexts.items():
         pass
@@ -584,13 +686,20 @@ def rule_value_display(fm, rep, rid='R5'):
                 return 'rendered by %s, expected %s\'s own Display' % (how, PRIM[v])
             return [('v', 'item')]
 
-        if v.startswith('Packed'):
-            nfa = compile_re(VALUES)
-        else:
-            nfa = compile_re(('val', 'item'))
         sub = _SubBody(body, start)
-        okv = run_grammar(sub, evs, classify, nfa, rep, rid, 'value/%s' % v, body.where(start), T=T)
-        if v.startswith('Packed') and okv:
+        strict_v = False
+        if v.startswith('Packed'):
+            from ..report import Report
+            strict_v = run_grammar(sub, evs, classify, compile_re(VALUES_STRICT), Report('scratch'), rid, 'value/%s' % v, body.where(start), T=T)
+            if strict_v:
+                okv = True
+                rep.good(rid, 'value/%s/grammar' % v, body.where(start), 'every path emits value(:value)* (strict grammar)')
+                rep.good(rid, 'value/%s/separator-iff-not-first' % v, body.where(start), 'structure of the loop itself yields value(:value)*')
+            else:
+                okv = run_grammar(sub, evs, classify, compile_re(VALUES), rep, rid, 'value/%s' % v, body.where(start), T=T)
+        else:
+            okv = run_grammar(sub, evs, classify, compile_re(('val', 'item')), rep, rid, 'value/%s' % v, body.where(start), T=T)
+        if v.startswith('Packed') and okv and not strict_v:
             seps = [bb for bb, atoms in evs.items() if atoms == [('lit', ':')]]
             okg = bool(seps)
             for bb in seps:
@@ -604,6 +713,11 @@ def rule_value_display(fm, rep, rid='R5'):
                         for lab in labels:
                             if lab[0] == 'bool' and _idx_gt0(gdt, lab[1], idx):
                                 g1 = True
+                if not g1:
+                    for nx in nexts:
+                        nb_ = [bi for bi, t_ in body.calls() if norm(T.call_term(bi)) == nx]
+                        if nb_ and first_flag_guard(body, T, bb, nb_[0]):
+                            g1 = True
                 okg = okg and g1
             rep.ob(rid, 'value/%s/separator-iff-not-first' % v, okg, body.where(start), '":" before every value but the first' if okg else 'the ":" separator is not guarded by (index > 0)')
         # extra guards on the scalar arm (e.g. a "fast path") show up as additional Display sites -> grammar violation
@@ -629,38 +743,50 @@ class _SubBody:
 def rule_type_codes(fm, rep, rid='R3'):
     cad = fm.cad
     bs = [b for b in cad.all_bodies if b.impl_trait == 'core::fmt::Display' and (b.impl_self or '').endswith('MetricType') and b.name == 'fmt']
-    b = one(rep, rid, 'impl Display for MetricType', bs)
-    if b is None:
+    b0 = one(rep, rid, 'impl Display for MetricType', bs)
+    if b0 is None:
         return
-    rep.analysed(b)
+    rep.analysed(b0)
+    b = inl(cad, b0)
     T = Terms(b)
-    sw = T.switch_facts(0) if b.blocks[0]['term']['k'] == 'switch' else None
+    # the match on *self (possibly inside an inlined private helper such as as_str())
+    sw = None
+    for bi in sorted(reach(b, [0])):
+        if b.blocks[bi]['term']['k'] == 'switch' and not b.blocks[bi]['cleanup']:
+            sf = T.switch_facts(bi)
+            d = norm(sf[0])
+            if d[0] == 'discr' and peel(d[1]) == ('param', 1):
+                sw = (bi, sf)
+                break
     if sw is None:
-        rep.unknown(rid, 'type-codes/shape', b.where(), 'fmt does not start with a match on self')
+        rep.unknown(rid, 'type-codes/shape', b0.where(), 'fmt contains no match on self')
         return
-    dt, edges = sw
+    dt, edges = sw[1]
+    ev_all = OutEvents(b, T, lambda a: peel(a) == ('param', 2))
     found = {}
     for s, labs in edges.items():
         for lab in labs:
             if lab[0] != 'variant':
                 continue
-            _, seen = freach(T, [s])
+            R, seen = freach(T, [s])
+            evR = OutEvents(b, R, lambda a: peel(a) == ('param', 2))
             lits = []
-            for bb in seen:
-                t = b.blocks[bb]['term']
-                if t['k'] == 'call' and not b.blocks[bb]['cleanup']:
-                    ct = norm(T.call_term(bb))
-                    for a in ct[2]:
-                        pa = peel(a)
-                        if pa[0] == 'str':
-                            lits.append(pa[1])
+            for bb in sorted(seen):
+                for atom in evR.events.get(bb, []):
+                    if atom[0] == 'lit':
+                        lits.append(atom[1])
+                    elif atom[0] == 'val':
+                        x = peel(atom[1])
+                        lits.append(x[1] if x[0] == 'str' else '<%s>' % fmt(x)[:40])
+                    else:
+                        lits.append('<?>')
             found[lab[1]] = lits
     rep.floor(rid, 'metric kinds with a type code', len(found), 7)
     for kind, code in KINDS7:
         rep.sites()
         got = found.get(kind)
-        ok = got == [code]
-        rep.ob(rid, 'type-code/%s' % kind, ok, b.where(), '%s -> "%s"' % (kind, code) if ok else '%s is rendered as %s, the protocol code is "%s"' % (kind, got, code))
+        ok = got is not None and ''.join(got) == code
+        rep.ob(rid, 'type-code/%s' % kind, ok, b0.where(), '%s -> "%s"' % (kind, code) if ok else '%s is rendered as %s, the protocol code is "%s"' % (kind, got, code))
 
 
 # ------------------------------------------------------------------ R9 setter flow, R8 constructors
